@@ -48,7 +48,7 @@ func (e *executor[R]) Apply(innerFn func(failsafe.Execution[R]) *common.PolicyRe
 			}
 
 			// Delay
-			delay := e.getDelay(exec)
+			delay := e.getDelay(execInternal.CopyWithResult(result))
 			if e.onRetryScheduled != nil {
 				e.onRetryScheduled(failsafe.ExecutionScheduledEvent[R]{
 					ExecutionAttempt: execInternal.CopyWithResult(result),
